@@ -95,6 +95,13 @@ PATHS = [
     ("seed-by-string", "set_seed('run-2024-A'); [random(1000), random(1000)]"), ("seed-by-date", "set_seed(date('20200101')); [random(1000), random(1000)]"),
     ("seed-by-element", "set_seed(first(list({S}))); [random(1000), random(1000)]"), ("seed-by-decimal", "set_seed(1.5); random(1000)"),
     ("seed-by-list", "set_seed(['a', 'b']); random(1000)"), ("seed-by-big-int", "set_seed(12345678901234567890123); [random(1000), random(1000)]"),
+    # comprehensions whose result has no order of its own still walk their source in sorted order: the last of several
+    # elements with one key wins, effects happen in walk order
+    ("mapcomp-keys-collide", "<<<type(x) => x for x in {S} >>>"), ("mapcomp-keys-collide-len", "<<<length(string(x)) => x for x in {S} >>>"),
+    ("setcomp-effects", "def acc = []; << do append(acc, x); 1 end for x in {S} >>; acc"), ("mapcomp-over-keys-collide", "<<<1 => k for k in keys {M} >>>"),
+    ("mapcomp-over-values-collide", "<<<1 => v for v in values {M} >>>"), ("mapcomp-over-entries-collide", "<<<1 => e for e in entries {M} >>>"),
+    ("setcomp-product-effects", "def acc = []; << do append(acc, [x, y]); 0 end for x in {S} for y in {S2} >>; acc"),
+    ("mapcomp-effects", "def acc = []; <<<x => do append(acc, x); 1 end for x in {S} >>>; acc"),
     ("hidden-members", "[x->_h for x in {S}]"), ("hidden-members-for", "def acc = []; for x in {S} do append(acc, x->_h) end; acc"),
     ("hidden-members-list", "[x->_h for x in list({S})]"), ("hidden-members-sorted", "[x->_h for x in sorted({S})]"),
     ("type-checks", "[x is string for x in {S}]"), ("contains", "[contains({S}, 'a'), 'a' in {M}]"), ("if-empty", "[{S} is empty, {M} is not empty]"),
